@@ -318,4 +318,16 @@ theorem normStmts_eq {b1 b2 : List Stmt} (h : normStmts b1 = normStmts b2) (A : 
   · rw [← normStmts_runEnv A b1, ← normStmts_runEnv A b2, h]
   · rw [← normStmts_runRet A b1, ← normStmts_runRet A b2, h]
 
+/-- the variables `xs` have the same canonical expression in both blocks -/
+def sameVars (xs : List Nat) (b1 b2 : List Stmt) : Bool :=
+  xs.all fun x => decide (canonVar x b1 = canonVar x b2) && (canonVar x b2).isSome
+
+theorem sameVars_eq {xs : List Nat} {b1 b2 : List Stmt} (h : sameVars xs b1 b2 = true) (A : Arrays) (ρ : Env)
+    (x : Nat) (hx : x ∈ xs) : runEnv A ρ b1 x = runEnv A ρ b2 x := by
+  unfold sameVars at h
+  rw [List.all_eq_true] at h
+  have := h x hx
+  simp only [Bool.and_eq_true, decide_eq_true_eq] at this
+  exact canonVar_eq this.1 this.2 A ρ
+
 end GoSem
